@@ -566,6 +566,25 @@ def check_array_writer(ctx, prog, f, other_val):
             ctx.check(psz == 1, 'C16.array', name, inst + ':bytes', fwhere(f, raws[0]['l']), 'unconditional raw write of %s elements' % pty,
                       'unconditional raw write of %s elements wider than a byte: no byte-order handling' % pty)
             return
+        if not raws and not loops:
+            # the bytes are handed as a whole to a sibling member taking the same array type (write(const ByteArray&)): its single
+            # raw write of (data(), length()) is the writer's
+            pid_ = f['params'][0]['id']
+            fwd = [e for e in fn_exprs(f) if e.get('k') == 'call' and len(e.get('a') or []) == 1 and strip_lv(e['a'][0]).get('k') == 'var' and strip_lv(e['a'][0]).get('id') == pid_ and
+                   e.get('clsp') == f.get('clsp') and (e.get('obj') is None or strip_lv(e['obj']).get('k') in ('this', None) or (strip_lv(e['obj']).get('k') == 'un' and strip_lv(strip_lv(e['obj'])['e']).get('k') == 'this'))]
+            if len(fwd) == 1:
+                hs = [h for h in prog.fn(fwd[0]['fn'], fwd[0].get('sig')) if h.get('body') and len(h['params']) == 1]
+                if hs:
+                    h = hs[0]
+                    hraws = [e for e in fn_exprs(h) if is_raw_transfer(e)]
+                    hloops = [x for x in ir.walk_stmts(h['body']) if x.get('k') in ('for', 'while', 'do')]
+                    if len(hraws) == 1 and not hloops:
+                        hp = h['params'][0]['id']
+                        from_param = all(any(w.get('k') == 'var' and w.get('id') == hp for w in walk_expr(a)) for a in hraws[0]['a'][:2])
+                        psz, pty, _ = q.pointee_size(h, hraws[0]['a'][0])
+                        ctx.check(psz == 1 and from_param, 'C16.array', name, inst + ':bytes', fwhere(f, fwd[0]['l']), 'forwarded whole to %s, which makes one raw write of its %s elements' % (h['pq'], pty),
+                                  'the bytes are forwarded to %s, whose raw write does not transfer exactly the elements of its argument' % h['pq'])
+                        return
         ctx.undecided('C16.array', name, inst + ':shape', fwhere(f), 'array writer is neither a single raw write of bytes nor selects on the byte order')
         return
     ctx.evaluations += 1
